@@ -30,8 +30,9 @@ Proof.
 Qed.
 
 Lemma catches_VE : catches [ValueError] ValueError = true. Proof. reflexivity. Qed.
-Lemma catches_TV_VE : catches [TypeError; ValueError] ValueError = true. Proof. reflexivity. Qed.
-Lemma catches_TV_TE : catches [TypeError; ValueError] TypeError = true. Proof. reflexivity. Qed.
+Lemma catches_TV_VE : catches [TypeError; ValueError; OverflowError] ValueError = true. Proof. reflexivity. Qed.
+Lemma catches_TV_TE : catches [TypeError; ValueError; OverflowError] TypeError = true. Proof. reflexivity. Qed.
+Lemma catches_TV_OE : catches [TypeError; ValueError; OverflowError] OverflowError = true. Proof. reflexivity. Qed.
 
 (* ---------- is_int_like ---------- *)
 (* generic form: str(v) is the canonical rendering of int(v) *)
@@ -49,7 +50,7 @@ Proof.
            apply beq_eq in Hb. congruence.
         -- apply py_str_exn in Es. subst e. rewrite catches_TV_VE in H. discriminate.
       * rewrite (str_of_int_over lim z Ew), catches_TV_VE in H. discriminate.
-    + destruct (catches [TypeError; ValueError] e); discriminate.
+    + destruct (catches [TypeError; ValueError; OverflowError] e); discriminate.
   - intros (z & -> & Hw & ->). rewrite (str_of_int_ok lim z Hw), beq_refl. reflexivity.
 Qed.
 
@@ -92,13 +93,28 @@ Qed.
 Lemma is_int_like_none lim : is_int_like lim PNone = Ok false.
 Proof. reflexivity. Qed.
 
-(* other objects: an exception from int(v) other than TypeError / ValueError escapes *)
+(* other objects: an exception from int(v) other than TypeError / ValueError / OverflowError escapes *)
 Lemma is_int_like_other_exn lim sv e :
-  is_int_like lim (POther sv (Exn e)) = if catches [TypeError; ValueError] e then Ok false else Exn e.
+  is_int_like lim (POther sv (Exn e)) = if catches [TypeError; ValueError; OverflowError] e then Ok false else Exn e.
 Proof. reflexivity. Qed.
 
-Example is_int_like_overflow_escapes lim sv : is_int_like lim (POther sv (Exn OverflowError)) = Exn OverflowError.
-Proof. reflexivity. Qed.
+(* floats: int(v) is an integer, or raises OverflowError (inf, -inf) or ValueError (nan) *)
+Definition float_like_int (iv : res Z) : bool :=
+  match iv with Ok _ => true | Exn OverflowError => true | Exn ValueError => true | Exn _ => false end.
+
+Lemma is_int_like_float lim sv iv : float_like_int iv = true ->
+  is_int_like lim (POther sv iv) = Ok true \/ is_int_like lim (POther sv iv) = Ok false.
+Proof.
+  destruct iv as [z|e].
+  - intros _. unfold is_int_like, try_except, bind. cbn [py_int_of py_str]. rewrite str_of_int_eq.
+    destruct (over_limit lim (ndigits_Z z)); [right; reflexivity|]. destruct (beq (dec_of_Z z) sv); auto.
+  - destruct e; try discriminate; intros _; right; reflexivity.
+Qed.
+
+Example is_int_like_inf_nan lim :
+  is_int_like lim (POther (lit "inf") (Exn OverflowError)) = Ok false /\
+  is_int_like lim (POther (lit "nan") (Exn ValueError)) = Ok false.
+Proof. split; reflexivity. Qed.
 
 (* ---------- validate_integer ---------- *)
 Definition in_range (z : Z) (lo hi : option Z) : bool := negb (below z lo) && negb (above z hi).
@@ -238,10 +254,12 @@ Lemma is_int_like_other_types lim :
   (forall z, is_int_like lim (PInt z) = Ok (within_limit lim z)) /\
   (forall b, is_int_like lim (PBool b) = Ok false) /\
   is_int_like lim PNone = Ok false /\
-  (forall sv e, is_int_like lim (POther sv (Exn e)) = if catches [TypeError; ValueError] e then Ok false else Exn e).
+  (forall sv iv, float_like_int iv = true ->
+     is_int_like lim (POther sv iv) = Ok true \/ is_int_like lim (POther sv iv) = Ok false) /\
+  (forall sv e, is_int_like lim (POther sv (Exn e)) = if catches [TypeError; ValueError; OverflowError] e then Ok false else Exn e).
 Proof.
   split; [apply is_int_like_str_total|]. split; [apply is_int_like_int|]. split; [apply is_int_like_bool|].
-  split; [apply is_int_like_none|apply is_int_like_other_exn].
+  split; [apply is_int_like_none|]. split; [apply is_int_like_float|apply is_int_like_other_exn].
 Qed.
 
 Lemma check_string_length_spec v mn mx :
